@@ -37,7 +37,7 @@ def gval_param(r: random.Random, hostile=1.0, allow_pos=True):
     if c < 0.4:
         return ("const", r.choice(["CONST_A", "$VAR", "$SCENARIO_MAIN", "ACTOR_PLAYER", "_x", "DMODE_OPEN", "a1", "actor", "previous_x"]))
     if c < 0.5:
-        w = r.choice(["0", "1", "63", "-1", "-0", "-12", "120"])
+        w = r.choice(["0", "1", "63", "-1", "-0", "-12", "120", "-10", "-120", "-100", "10", "100"])
         f = r.choice(["0", "5", "25", "003", "996", "50", "000", "10"])
         return ("fp", f"{w}.{f}")
     if c < 0.72:
@@ -90,7 +90,7 @@ ES_KEYWORDS = {"if", "switch", "end", "jump", "not", "case", "with", "macro", "i
 def typed_param(r, kind, hostile):
     if kind == IL:
         return r.choice([("int", r.choice([0, 1, 2, 3, 7, 19, -1, 255, 32767])), ("const", r.choice(["$VAR", "CONST_A", "$SCENARIO_MAIN", "_x", "a1"])),
-                         ("fp", r.choice(["1.5", "-0.25", "63.996"]))])
+                         ("fp", r.choice(["1.5", "-0.25", "63.996", "-10.5", "-100.25", "20.0"]))])
     if kind == INT:
         return ("int", r.choice([0, 1, 2, 7, 30, 255, -1]))
     if kind == STR:
